@@ -143,6 +143,8 @@ TunMetaEl(n, idx, len, masked, tag) ==
                   ELSE [T |-> "MatchField", Class |-> <<0, 1>>, Field |-> <<40 + idx>>, HasMask |-> FALSE, Value |-> V(tag, len)],
      <<New(n, "NewTunMetadataField", IF masked THEN <<idx, V(tag, len), V(tag + 1, len)>> ELSE <<idx, V(tag, len), Nil>>)>>)
 NoteEl(n, len, tag) == El(n, [T |-> "NXActionNote", Note |-> V(tag, len)], <<New(n, "NewNXActionNote", <<>>), Set(n, "Note", V(tag, len))>>)
+\* a note whose own content ends in zero bytes (indistinguishable from padding only by its position, not by its value)
+NoteZEl(n, len, z, tag) == LET v == V(tag, len - z) \o Zeros(z) IN El(n, [T |-> "NXActionNote", Note |-> v], <<New(n, "NewNXActionNote", <<>>), Set(n, "Note", v)>>)
 CntIDs(n, k, tag) == LET ids == [i \in 1..k |-> V(tag + i, 2)] IN
   El(n, [T |-> "NXActionDecTTLCntIDs", IDs |-> ids], <<New(n, "NewNXActionDecTTLCntIDs", <<BE16(k)>> \o ids)>>)
 LeafAct(n, kind, tag) ==
